@@ -47,7 +47,7 @@ BUILD_KW = {"extra_consts": '  PublishMode = "pending"\n'}      # TraceBuild val
 
 def judge_file(ctx, module, cases_path, tag, budget="10s", workers=None, pvh=None):
     trace = fam_codec.run_cases(pvh or ctx.pvh, cases_path, ctx.work, tag, budget=budget, workers=workers)
-    kw = BUILD_KW if module == "TraceBuild" else getattr(ctx, "judge_kw", {})
+    kw = BUILD_KW if module == "TraceBuild" else (getattr(ctx, "judge_kw", {}) if module == getattr(ctx, "judge_kw_module", module) else {})
     verdicts, st = vlib.judge(ctx.work, module, trace, ctx.env, ctx.open, tag=tag + module[-5:], **kw)
     return trace, verdicts, st
 
@@ -75,7 +75,9 @@ def confirm(ctx, module, cid, want_class):
     line = find_case(ctx, cid)
     alias = None
     if line is not None and json.loads(line).get("ev") == "codec" and module != "TraceCodec":
-        module, alias = "TraceCodec", "C01"        # history-independence cases of C10 are ordinary round trips
+        module, alias = "TraceCodec", ("C11" if ctx.prop == "C11" else "C01")        # history-independence cases of C10 are ordinary round trips
+    if line is not None and json.loads(line).get("ev") == "sched" and ctx.prop == "C11":
+        module, alias = "TraceSched", "C11"
     if getattr(ctx, "relabel", None):
         alias = "sys"
     if ctx.prop == "C16":                          # C16 is judged through the round-trip / wire / descriptor verdicts of its cases
@@ -320,7 +322,33 @@ def decode_family(ctx, kinds, n_quick, n_thorough, with_codec_sessions=False):
 CAT_RE = re.compile(r'^<<"CATALOGUE", (".*")>>$')
 
 
-def system_family(ctx, catname="MCCat", quick_idx="QuickIdx", relabel=None, extra_inv="", sweep=True):
+def c11_extra(ctx):
+    """C11 beyond the catalogue histories: (a) on random types, every single Marshal leaves its argument alone (TraceCodec's C11 verdict);
+    (b) concurrent decodes through one interning codec, the callers overwriting their input buffers afterwards (TraceSched's C11 verdict)."""
+    import random, fam_sched
+    n = 3000 if ctx.quick else 60000
+    pc = fam_codec.gen_random(ctx.pvh, ctx.work, n, ctx.seed + 11, cfg="mix", kind="codec", idbase=9000000, tag="c11codec")
+    ctx.case_files.append(pc)
+    tc = fam_codec.run_cases(ctx.pvh, pc, ctx.work, "c11codec")
+    v1, st1 = vlib.judge(ctx.work, "TraceCodec", tc, ctx.env, ctx.open, tag="c11codecj")
+    verdicts = [(i, "C11", "single-call:" + r) for (i, p, r) in v1 if p == "C11"]
+    rnd = random.Random(ctx.seed)
+    cases = [c for c in fam_sched.cases(ctx.quick, rnd) if c["family"].startswith("intern") or c["family"] == "three-intern"]
+    for c in cases:
+        c["cfg"] = fam_codec.CFGS["default"]
+    ps = os.path.join(ctx.work, "c11sched_cases.ndjson")
+    fam_codec.write_cases(cases, ps, 8000000)
+    ctx.case_files.append(ps)
+    os.environ["PVH_GOMAXPROCS"] = "8"
+    ts = fam_codec.run_cases(ctx.pvh, ps, ctx.work, "c11sched", budget="30s")
+    v2, st2 = vlib.judge(ctx.work, "TraceSched", ts, ctx.env, ctx.open, tag="c11schedj")
+    verdicts += [(i, "C11", "concurrent-decode:" + r) for (i, p, r) in v2 if p == "C11"]
+    st = {k: st1.get(k, 0) + st2.get(k, 0) for k in ("events", "generated", "distinct")}
+    return verdicts, st, [tc, ts], (" + %d random single calls (argument unchanged) + %d scheduled concurrent decodes through one interning codec with the "
+                                    "input buffers overwritten afterwards" % (n, len(cases)))
+
+
+def system_family(ctx, catname="MCCat", quick_idx="QuickIdx", relabel=None, extra_inv="", sweep=True, extra=None):
     """C06 / C11 / C17 / C19: histories generated from PlencSystem (exhaustive short ones + random long ones) replayed and validated by TraceSystem."""
     ctx.build()
     base = "  Env <- MCEnv\n  Cat <- %s\n  GenIdx <- %s\n" % (catname, quick_idx if ctx.quick else "AllIdx")
@@ -373,15 +401,23 @@ def system_family(ctx, catname="MCCat", quick_idx="QuickIdx", relabel=None, extr
         shutil.copyfileobj(open(t2, 'rb'), f)
     ctx.judge_kw = dict(extra_consts='  CatFile = "%s"\n  Cat <- CatLit\n  Bufs = {"b1", "b2"}\n  MaxSteps = 100\n  GenIdx <- AllIdx\n' % catp,
                         defs="CatLit == " + vlib.tla_literal(cat))
+    ctx.judge_kw_module = "TraceSystem"
     verdicts, jst = vlib.judge(ctx.work, "TraceSystem", trace, ctx.env, ctx.open, tag="main", **ctx.judge_kw)
     if relabel:
         verdicts = [(i, relabel, p + ":" + r) for (i, p, r) in verdicts]
         ctx.relabel = relabel
+    traces, more = [trace], ""
+    if extra:
+        v2, st2, tr2, more = extra(ctx)
+        verdicts += v2
+        traces += tr2
+        for k in ("events", "generated", "distinct"):
+            jst[k] = jst.get(k, 0) + st2.get(k, 0)
     rule = ("histories of API calls (newbuf with prefix {0,1,3 bytes} x spare capacity {0,1,64}; marshal by pointer / by value; marshal into data[:0]; "
             "unmarshal; scribble; fresh variable) over a catalogue of %d (type, value) items incl. values that encode to nothing and pointer-shaped "
             "by-value shapes: all %d histories of length 3 on one buffer + %d random histories of 6..12 calls on two buffers. One TLC state per call; "
-            "distinct = distinct histories; non-trivial = contains a marshal of a value with a non-empty encoding" % (len(cat), len(cases), nsim))
-    return finish(ctx, "TraceSystem", verdicts, [trace], jst, rule, CODEC_ASSUME + [
+            "distinct = distinct histories; non-trivial = contains a marshal of a value with a non-empty encoding" % (len(cat), len(cases), nsim)) + more
+    return finish(ctx, "TraceSystem", verdicts, traces, jst, rule, CODEC_ASSUME + [
         "aliasing is detected through its observable consequence: the source value is scrambled in place after every Marshal, buffers are overwritten by "
         "scribble steps, and every live buffer and variable is re-read after every call"])
 
@@ -756,7 +792,7 @@ def plan_C06(ctx):
 
 
 def plan_C11(ctx):
-    return system_family(ctx)
+    return system_family(ctx, extra=c11_extra)
 
 
 def plan_C03(ctx):
